@@ -64,3 +64,17 @@ SPECS["C18"] = {
     "trusted_base": ["pyvc VC generator and its built-in models", "z3 5.1.0 / cvc5 1.0.3"],
     "assumptions": ["IntEnum members are their integer values; dict lookups with a symbolic key are case-split over the literal keys"],
 }
+
+
+SPECS["C03"] = {
+    "level": "proof",
+    "level_text": "from_bin_cue is proved, for any number of tracks and any MM:SS:FF values, to build exactly the windows the statement prescribes (offset 2352*F_k, size up to the next first index, last track to the end of the bin), hence contiguous tiling; 16-bit stereo 44100; every window starts rewound. The byte content of each WAV then follows from the proved window view (C08 StreamOffset) and the proved pass-through transcoder (whole-frame truncation)",
+    "level_note": "trusted: pyvc engine, z3; ROF contract of the bin file; str.lower as an uninterpreted function; the filter comprehension axioms; composition window -> transcoder -> data chunk is on paper (GreedyRange build writes the yielded blocks in order: assumed)",
+    "contracts": ["smpl_extract.cuesheet:CueSheetIndex.get_total_audio_frames",
+                  "smpl_extract.cdda.image:CompactDiskAudioImageAdapter.from_bin_cue",
+                  "smpl_extract.util.stream:StreamOffset.read", "smpl_extract.util.stream:StreamOffset.seek"],
+    "bounded": [("contracts.cdda", "smpl_extract.cdda.image:CompactDiskAudioImageAdapter.from_bin_cue"),
+                ("contracts.cdda", "smpl_extract.cuesheet:CueSheetIndex.get_total_audio_frames")],
+    "trusted_base": ["pyvc VC generator and its built-in models", "z3 5.1.0 / cvc5 1.0.3"],
+    "assumptions": [],
+}
